@@ -151,12 +151,13 @@ func (g ggen) resumable(b, n j.B, startIdx int, pc float64, maxLen int) []gcs.Op
 	start := gcs.Op{Ev: "ResumableStart", B: b, N: n, Decl: "none", Attrs: g.attrs(false), Meta: g.meta(), Conds: g.conds(pc), Gzip: g.chance(0.1)}
 	ops := []gcs.Op{start}
 	have := 0
+	no308 := g.chance(0.3) // a client that cannot handle 308 answers (for the whole session)
 	put := func(lo, total int, data []byte) {
 		m := "PUT"
 		if g.chance(0.15) {
 			m = "POST"
 		}
-		ops = append(ops, gcs.Op{Ev: "ResumablePut", Ref: startIdx, Lo: lo, Total: total, Data: j.B(data), Md5full: tok, Method: m})
+		ops = append(ops, gcs.Op{Ev: "ResumablePut", Ref: startIdx, Lo: lo, Total: total, Data: j.B(data), Md5full: tok, Method: m, No308: no308})
 	}
 	for steps := 0; steps < 8; steps++ {
 		total := -1
